@@ -49,6 +49,11 @@ func histories(n, max int) [][]int {
 	return out
 }
 
+const (
+	farAhead  = int64(2*3_600_000_000_000 + 5)
+	farBehind = int64(-9*3_600_000_000_000 + 5)
+)
+
 func TestC10FullState(t *testing.T) {
 	ops := c10alphabet()
 	nops := vk.Pick(11, 12)
@@ -73,20 +78,25 @@ func TestC10FullState(t *testing.T) {
 			return false
 		}
 	outer:
-		for _, bOff := range []int64{0, -10} {
+		// B's clock two hours ahead of A's (one hour ahead of the wall clock) or nine hours behind: stamps are wall-clock
+		// readings, and whatever compares them with the local wall clock must not make a view depend on it
+		for _, bOff := range []int64{0, -10, farAhead, farBehind} {
 			for ia, ha := range hA {
 				if !sh.Mine(ia) {
 					continue
+				}
+				if (bOff == farAhead || bOff == farBehind) && len(ha) > vk.Pick(2, 3) {
+					continue // far-apart clocks: shorter histories of A in the quick depth (cost)
 				}
 				for _, hb := range hB {
 					// B's clock exactly one tick behind: its next stamp equals the one A just used. Only for sessions and
 					// retained messages, whose local writes are bumped past what the writer has seen (subscription
 					// stamps are plain, so this offset would be a genuine tie, which the statement excludes)
-					if bOff != 0 && (isSubOp(ha) || isSubOp(hb) || len(hb) == 0) {
+					if bOff == -10 && (isSubOp(ha) || isSubOp(hb) || len(hb) == 0) {
 						continue
 					}
 					for lossA := 0; lossA < 1<<len(ha); lossA++ {
-						if bOff != 0 && lossA != 0 {
+						if bOff == -10 && lossA != 0 {
 							continue // B must have seen A's stamps, or equal stamps on one key are a genuine tie
 						}
 						for lossB := 0; lossB < 1<<len(hb); lossB++ {
